@@ -5,7 +5,7 @@
 * the `omega < 0` wrap of `trs2kepler`: the scalar branch (`if omega < 0: omega += 2 * np.pi`) and the boolean-mask
   assignment of the array branch (`omega[omega < 0] += 2 * np.pi`, per element): comparison operator, threshold and the
   added constant are taken from the source;
-* the assembly of `kepler2trs`: `np.squeeze(PQW @ np.expand_dims(x.T, axis=x.ndim))` for `R` and `V` (matrix times column
+* the assembly of `kepler2trs`: `(PQW @ np.expand_dims(x.T, axis=x.ndim))[..., 0]` (or `np.squeeze(…)` of it) for `R` and `V` (matrix times column
   vector, written out entry by entry) and the order of `np.hstack((R, V))`.
 
 Output: lean/Midgard/Generated/KeplerShape.lean (namespace Midgard.Generated.KepSrc).  Anything outside the expected
@@ -131,12 +131,22 @@ def trs2kepler_parts(fn):
 
 
 # ------------------------------------------------------------------ kepler2trs assembly
+def _column_dropped(v):
+    """`np.squeeze(X)` (until /repo 60f7c07) or `X[..., 0]` (since: only the column axis of the product goes, an array of
+    one state keeps its row): the product X whose column vector is read as a vector"""
+    if _is_np(v, "squeeze") and len(v.args) == 1:
+        return v.args[0]
+    if isinstance(v, ast.Subscript) and ast.unparse(v.slice) == "(..., 0)":
+        return v.value
+    return None
+
+
 def kepler2trs_parts(fn):
     rot = {}
     order = None
     for st in fn.body:
-        if isinstance(st, ast.Assign) and len(st.targets) == 1 and isinstance(st.targets[0], ast.Name) and _is_np(st.value, "squeeze"):
-            m = st.value.args[0]
+        if isinstance(st, ast.Assign) and len(st.targets) == 1 and isinstance(st.targets[0], ast.Name) and _column_dropped(st.value) is not None:
+            m = _column_dropped(st.value)
             if not (isinstance(m, ast.BinOp) and isinstance(m.op, ast.MatMult) and isinstance(m.left, ast.Name) and _is_np(m.right, "expand_dims")):
                 raise Untranslatable("PQW @ expand_dims(...)")
             col = m.right
